@@ -438,10 +438,11 @@ Proof.
 Qed.
 Lemma sigDecode_sigEncode c z h : zlen c = p_lambda_div4 P -> BitPackProofs.bytes_ok c ->
   rvec (p_gamma1 P - 1) (p_gamma1 P) (p_l P) z -> rvec 0 1 (p_k P) h -> weight h <= p_omega P ->
-  sigDecode P (sigEncode P c z h) = (c, z, Some h).
+  sigDecode P (sigEncode P c z h) = (c, z, Some h) /\ BitPackProofs.bytes_ok (sigEncode P c z h) /\ zlen (sigEncode P c z h) = p_sig_len P.
 Proof.
   intros Lc Bc Rz Rh Hw. pose proof (sig_encode_spec P HP c z h Rz Rh Hw) as Ee.
   destruct (sig_decode_encode P c z h _ HP Lc Bc Rz Rh Hw Ee) as (Bs & Ls & Ed).
+  split; [|split; assumption].
   rewrite (sig_decode_spec P _ HP Bs Ls) in Ed. destruct (sigDecode P (sigEncode P c z h)) as [[c' z'] [h'|]]; cbn [sig_decode_result] in Ed; [|discriminate].
   injection Ed as -> -> ->. reflexivity.
 Qed.
@@ -463,7 +464,7 @@ Qed.
 Theorem Spec_sign_verify xi fuel M' rnd rho K tr s1 s2 t0 t1 sigma :
   KeyGen_parts H P xi = Some (rho, K, tr, s1, s2, t0, t1) ->
   Sign_core H P fuel rho K tr s1 s2 t0 M' rnd = Some sigma ->
-  Verify_internal H P (pkEncode rho t1) M' sigma = Some true.
+  Verify_internal H P (pkEncode rho t1) M' sigma = Some true /\ BitPackProofs.bytes_ok sigma /\ zlen sigma = p_sig_len P.
 Proof.
   intros EP ES.
   destruct (KeyGen_parts_shape H HL P HP xi _ _ _ _ _ _ _ EP) as (Lr & LK & Lt & R1 & R2 & R3 & R4).
@@ -538,7 +539,8 @@ Proof.
   assert (Bct : BitPackProofs.bytes_ok c_tilde) by apply (shake256_ok H HL).
   (* run Verify_internal *)
   destruct (pkDecode_pkEncode rho t1 Lr Br R4) as (Epk & _ & _).
-  unfold Verify_internal. rewrite Epk, (sigDecode_sigEncode c_tilde zs h Lct Bct Rzs Rh Hw'), EA, Ec. cbv zeta.
+  destruct (sigDecode_sigEncode c_tilde zs h Lct Bct Rzs Rh Hw') as (Esd & Bsig & Lsig). split; [|split; assumption].
+  unfold Verify_internal. rewrite Epk, Esd, EA, Ec. cbv zeta.
   change (Z.to_nat 64) with 64%nat. rewrite <- Etr. fold mu.
   (* the norm test *)
   rewrite (infnorm_cong _ _ Czs). rewrite <- Ez.
